@@ -4,6 +4,7 @@ import (
 	"bytes"
 	"fmt"
 	"strings"
+	"time"
 
 	"verifengine/core"
 )
@@ -261,9 +262,57 @@ func indexOf(all [][]string, one []string) int {
 	return -1
 }
 
+// c14CLI: pairs of statements whose text contains non-ASCII bytes (strings and comments in UTF-8 and in Shift_JIS),
+// through the REAL command: what the front end decides about the encoding of the file must not depend on the
+// neighbouring statement.
+func c14CLI(r *core.Run, tier string) {
+	t0 := time.Now()
+	p := r.Cfg.Pool
+	stmts := []string{
+		"\tMOV AL,1\n",
+		"\tDB \"caf\u00e9\",0\n",             // UTF-8 string
+		"\tDB \"\x93\xfa\x96\x7b\",0\n",      // Shift_JIS string
+		"\tHLT ; \x93\xfa\x96\x7b\x8c\xea\n", // Shift_JIS comment
+		"\tNOP ; \u65e5\u672c\u8a9e\n",       // UTF-8 comment
+		"\tDB \"\xb1\xb2\xb3\"\n",            // half-width katakana (single bytes >= 0x80)
+		"\tDB \"plain ascii\"\n\tDW 0x1234\n",
+		"\tMOV AX,0x1234 # \x83\x5c\n", // Shift_JIS character with a 0x5C trail byte in a comment
+	}
+	alone := make([]*core.Result, len(stmts))
+	for i, s := range stmts {
+		alone[i] = p.CLI(s, nil, false)
+	}
+	var n, nt int64
+	for i, a := range stmts {
+		for j, b := range stmts {
+			both := p.CLI(a+b, nil, false)
+			n++
+			if alone[i].ExitCode != 0 || alone[j].ExitCode != 0 {
+				continue
+			}
+			nt++
+			want := append(append([]byte{}, alone[i].Out...), alone[j].Out...)
+			if both.ExitCode != 0 || !bytes.Equal(both.Out, want) {
+				dev := "bytes_differ"
+				if both.ExitCode != 0 {
+					dev = fmt.Sprintf("exit:%d", both.ExitCode)
+				} else if len(both.Out) != len(want) {
+					dev = fmt.Sprintf("length:%+d", len(both.Out)-len(want))
+				}
+				r.AddFail("cli_pairs", fmt.Sprintf("cli pair %d ; %d", i, j), map[string]string{"a": fmt.Sprint(i), "b": fmt.Sprint(j)}, []string{a + b, a, b},
+					core.Fail{Facet: "cli_concat", Dev: dev, Detail: fmt.Sprintf("real command: out(A;B)=%x, out(A)||out(B)=%x", both.Out, want)})
+			}
+		}
+	}
+	r.AddNT("cli_pairs")
+	r.AddCustom("cli_pairs", "all ordered pairs of 8 statements with non-ASCII bytes in strings and comments (UTF-8, Shift_JIS double-byte incl. a 0x5C trail byte, half-width katakana), each pair and each statement assembled by the REAL command: out(A;B) = out(A)||out(B)",
+		map[string]any{"statements": len(stmts)}, n+int64(len(stmts)), n, n+int64(len(stmts)), nt, 1, true, time.Since(t0).Seconds())
+}
+
 func init() {
 	register(&Property{
 		ID:        "C14",
+		Custom:    c14CLI,
 		Scenarios: c14Scenarios,
 		Assumptions: []string{
 			"differential oracle: the bytes a statement yields when assembled alone (under the same BITS header) are the reference; what they should be is C01-C05's subject",
